@@ -497,3 +497,41 @@ CAMLprim value vp_usrc_free(value uv)
 	mtbl_source_destroy(&u->src); free(u);
 	return Val_unit;
 }
+
+/* ---- sorter + mkstemp shim (sorter.c compiled with -Dmkstemp=vp_mkstemp) ---------- */
+#undef mkstemp
+#include <pthread.h>
+static pthread_mutex_t vp_mkstemp_m = PTHREAD_MUTEX_INITIALIZER;
+static char vp_templates[256][256]; static long vp_mkstemp_calls = 0;
+int vp_mkstemp(char *template)
+{
+	pthread_mutex_lock(&vp_mkstemp_m);
+	if (vp_mkstemp_calls < 256) { strncpy(vp_templates[vp_mkstemp_calls], template, 255); }
+	vp_mkstemp_calls++;
+	pthread_mutex_unlock(&vp_mkstemp_m);
+	return mkstemp(template);
+}
+CAMLprim value vp_mkstemp_reset(value unit) { vp_mkstemp_calls = 0; return Val_unit; }
+CAMLprim value vp_mkstemp_count(value unit) { return Val_long(vp_mkstemp_calls); }
+CAMLprim value vp_mkstemp_template(value i) { return caml_copy_string(vp_templates[Long_val(i) % 256]); }
+
+/* (max_memory, tmp dir, merge clos, pool) */
+CAMLprim value vp_sorter_init(value maxmem, value tmpdir, value mclos, value pool)
+{
+	struct mtbl_sorter_options *so = mtbl_sorter_options_init();
+	mtbl_sorter_options_set_max_memory(so, Long_val(maxmem));
+	mtbl_sorter_options_set_temp_dir(so, String_val(tmpdir));
+	if (PTR(mclos) != NULL) mtbl_sorter_options_set_merge_func(so, vp_merge_func, PTR(mclos));
+	if (PTR(pool) != NULL) mtbl_sorter_options_set_threadpool(so, PTR(pool));
+	struct mtbl_sorter *s = mtbl_sorter_init(so);
+	mtbl_sorter_options_destroy(&so);
+	return mk_ptr(s);
+}
+CAMLprim value vp_sorter_add(value s, value k, value v)
+{
+	return Val_bool(mtbl_sorter_add(PTR(s), (const uint8_t *) String_val(k), caml_string_length(k),
+					(const uint8_t *) String_val(v), caml_string_length(v)) == mtbl_res_success);
+}
+CAMLprim value vp_sorter_iter(value s) { return mk_ptr(mtbl_sorter_iter(PTR(s))); }
+CAMLprim value vp_sorter_write(value s, value w) { return Val_bool(mtbl_sorter_write(PTR(s), PTR(w)) == mtbl_res_success); }
+CAMLprim value vp_sorter_destroy(value s) { struct mtbl_sorter *p = PTR(s); mtbl_sorter_destroy(&p); return Val_unit; }
